@@ -401,6 +401,50 @@ func (w *World) classifyLoop(fn *ssa.Function, l *loopInfo) loopClass {
 			}
 		}
 	}
+	// T3 (rotated form): line, err := b.ReadBytes(..); for err == nil { ...; line, err = b.ReadBytes(..) }
+	isReadErr := func(v ssa.Value) (*ssa.Call, bool) {
+		ex, ok := v.(*ssa.Extract)
+		if !ok || ex.Index != 1 {
+			return nil, false
+		}
+		c, ok := ex.Tuple.(*ssa.Call)
+		if !ok || c.Call.StaticCallee() == nil {
+			return nil, false
+		}
+		name := c.Call.StaticCallee().String()
+		return c, name == "(*bytes.Buffer).ReadBytes" || name == "(*bytes.Buffer).ReadString"
+	}
+	for _, ifi := range tests {
+		bin, ok := ifi.Cond.(*ssa.BinOp)
+		if !ok || !isNilConst(bin.Y) || (bin.Op != token.EQL && bin.Op != token.NEQ) {
+			continue
+		}
+		phi, ok := bin.X.(*ssa.Phi)
+		if !ok || phi.Block() != l.Header {
+			continue
+		}
+		errSucc := ifi.Block().Succs[0]
+		if bin.Op == token.EQL {
+			errSucc = ifi.Block().Succs[1]
+		}
+		if l.Blocks[errSucc] {
+			continue
+		}
+		good := true
+		for i, e := range phi.Edges {
+			c, isRead := isReadErr(e)
+			if !isRead {
+				good = false
+				break
+			}
+			if l.Blocks[phi.Block().Preds[i]] && !(l.Blocks[c.Block()] && dominatesAllLatches(l, c.Block())) {
+				good = false
+			}
+		}
+		if good {
+			return loopClass{"T3", true, "drains a bytes.Buffer line by line (read before the loop and at the end of every iteration); ReadBytes fails with io.EOF once the finite buffer is empty"}
+		}
+	}
 	why := "no test executed on every iteration has a recognised ranking argument"
 	if len(reasons) > 0 {
 		why = reasons[0]
